@@ -546,8 +546,8 @@ class Env:
         self.ml = core.build_extracted("c17model", "Extract/Extract_C17.v", "c17_driver.ml")
         self.cd = None
         self.reported = set()
-        self.vfix = None
-        self.vraw = None
+        self.fixed = None        # which of the two modelled variants of the copiers the code implements
+        self.f4_fixed = self.rep_fixed = self.wrap_fixed = None
         self.gfix = False
 
     def codec(self):
@@ -582,9 +582,9 @@ def a_line(c):
     return "A %s %s %s %s %d" % (c["id"], codec.params_str(c["params"]), c["dictmode"], codec.hx(c["dict"]) if c["dictmode"] != "-" else "-", len(c["x"]))
 
 
-def model_q_line(c, ap, rule, dec, tag=""):
-    return "Q %s%s %d %d %d 0 %d %d %d %d %d %d %d %d 1.4.8 %s %s" % (
-        c["id"], tag, ap["wl"], ap["mm"], ap["val"], ap["ds"], ap["maxnb"], 1 if rule[0] else 0, 1 if rule[1] else 0, ap["delim"],
+def model_q_line(c, ap, fixed, dec, tag=""):
+    return "Q %s%s %d %d %d 0 %d %d %d %d %d %d %d 1.4.8 %s %s" % (
+        c["id"], tag, ap["wl"], ap["mm"], ap["val"], ap["ds"], ap["maxnb"], 1 if fixed else 0, ap["delim"],
         1 if ap["ers"] == 1 else 0, ap["bs"], len(c["x"]), dec or "-", seqs_str(c["seqs"]))
 
 
@@ -624,23 +624,21 @@ def detect_rule(env):
     accn = out.get("f4n", "").startswith("OK")
     ctrl = out.get("f4c", "").startswith("ERR")
     env.f4_out = {k: v[-160:] for k, v in out.items()}
+    env.f4_fixed = not (acc or accn)
     if acc or accn:
-        env.vfix = False
         env.report(dict(kind="compressSequences", params={"blockDelimiters": 1, "validateSequences": 1}, dictmode="-", dict_hex="",
                         seqs="50:0:100,100:0:3900,0:0:0", input_hex=x.hex(), observed=env.f4_out),
                    what="finding F4: with validateSequences=1 the sequence {off 50, ll 0, ml 100} at position 0 is accepted (offset bound computed "
                         "from the position after the match): result %s / delimiter-free %s; control {off 101} %s"
                         % (out.get("f4", "?")[-40:], out.get("f4n", "?")[-40:], out.get("f4c", "?")[:40]), key=KEY_F4)
-    else:
-        env.vfix = True
     # second witness, independent of the first: offset 8 == initial repeat offset 3 at position 0, match of 3 bytes: even the
     # end-of-match position (3) gives a bound below 8; delimiter-free mode always substitutes repcodes
     x2 = rng.randbytes(100)
     parn = codec.params_str({"validateSequences": 1, "minMatch": 3})
     l2 = ["Q rp %s - - 8:0:3 %s 0" % (parn, x2.hex()), "Q rpc %s - - 9:0:3 %s 0" % (parn, x2.hex())]
     out2, _ = env.impl(l2)
-    env.vraw = not out2.get("rp", "").startswith("OK")
-    if not env.vraw:
+    env.rep_fixed = not out2.get("rp", "").startswith("OK")
+    if not env.rep_fixed:
         env.report(dict(kind="compressSequences", params={"validateSequences": 1, "minMatch": 3}, dictmode="-", dict_hex="",
                         seqs="8:0:3", input_hex=x2.hex(), observed={k: v[-120:] for k, v in out2.items()}),
                    what="with validateSequences=1 the sequence {off 8, ll 0, ml 3} at position 0 is accepted: the offset test is applied "
@@ -650,7 +648,21 @@ def detect_rule(env):
         env.report(dict(kind="compressSequences", seqs="101:0:100,100:0:3900,0:0:0", input_hex=x.hex(), params={"blockDelimiters": 1, "validateSequences": 1},
                         dictmode="-", dict_hex=""),
                    what="offset 101 at position 0 of a 4000-byte source accepted with validateSequences=1: %s" % out.get("f4c", "?")[:80])
-    return env.vfix
+    # third witness (does not crash): matchLength 2^32-6 + litLength 10 wraps to 4 in U32; with the size_t length test it is refused
+    z = bytes(4000)
+    out3, cr3 = env.impl(["Q wr %s - - 1:10:4294967290,0:3996:0 %s 0" % (par, z.hex())])
+    env.wrap_fixed = out3.get("wr", "").startswith("ERR")
+    if not env.wrap_fixed:
+        env.report(dict(kind="compressSequences", params={"blockDelimiters": 1, "validateSequences": 1}, dictmode="-", dict_hex="",
+                        seqs="1:10:4294967290,0:3996:0", input_hex=z.hex(), observed={k: v[-120:] for k, v in out3.items()}),
+                   what="with validateSequences=1 the sequence {off 1, ll 10, ml 4294967290} in a 4000-byte source is accepted: litLength+matchLength "
+                        "is added in 32 bits (wraps to 4); the variant {off 1, ll 4294967295, ml 5} makes ZSTD_storeSeq copy ~4 GiB (heap overflow): %s"
+                        % out3.get("wr", str(cr3))[-60:], key=KEY_WRAP)
+    env.fixed = bool(env.f4_fixed and env.rep_fixed and env.wrap_fixed)
+    if not env.fixed and (env.f4_fixed or env.rep_fixed or env.wrap_fixed):
+        core.log("validation only partly repaired (F4 %s, repcode %s, wrap %s): the model has the snapshot variant and the fully repaired one; "
+                 "using the snapshot variant" % (env.f4_fixed, env.rep_fixed, env.wrap_fixed))
+    return env.fixed
 
 
 def run_q(env, cases, tierlabel=""):
@@ -702,10 +714,9 @@ def run_q(env, cases, tierlabel=""):
             if len(fr) == 1 and fr[0]["kind"] == "zstd":
                 c["rtrace"] = fr[0]
                 dec = "".join("1" if b["type"] == 2 else "0" for b in fr[0]["blocks"] if b["rsize"] >= 7)
-        mlines.append(model_q_line(c, ap, (env.vfix, env.vraw), dec))
-        if ap["val"] and not (env.vfix and env.vraw):
-            mlines.append(model_q_line(c, ap, (True, env.vraw), dec, tag="~p"))      # position rule repaired
-            mlines.append(model_q_line(c, ap, (True, True), dec, tag="~r"))          # both repaired
+        mlines.append(model_q_line(c, ap, env.fixed, dec))
+        if not env.fixed:
+            mlines.append(model_q_line(c, ap, True, dec, tag="~r"))          # the repaired rules
     mout = env.model(mlines)
     for c in cases:
         judge_q(env, c, mres.get(c["id"]), mout)
@@ -721,18 +732,16 @@ def judge_q(env, c, rres, mout):
             env.report(case_replay(c, dict(stderr=real[1][1][-800:])), what="c17_seq crashed (rc %s) in ZSTD_compressSequences: %s" % (real[1][0], real[1][1][-300:].replace("\n", " ")))
         return
     mod = parse_model_blocks(mout.get(c["id"], "MISSING"))
-    altp = parse_model_blocks(mout.get(c["id"] + "~p", mout.get(c["id"], "MISSING")))
     altr = parse_model_blocks(mout.get(c["id"] + "~r", mout.get(c["id"], "MISSING")))
 
     def finding_key(want):
-        """which modelled defect explains a disagreement between the code and the documented rule (want = verdict of the repaired rules)"""
-        if mod[0] == want:
+        """is a disagreement between the code and the documented rule explained by the modelled defects of the unrepaired
+        validation (want = verdict of the repaired rules)?  F4 (end position) and the repcode bypass are told apart by
+        whether the offending offset equals a repeat offset; both are reported under the F4 key unless the witness of the
+        repcode bypass alone still fires"""
+        if mod[0] == want or altr[0] != want:
             return None
-        if altp[0] == want:
-            return KEY_F4
-        if altr[0] == want:
-            return KEY_REP if env.vfix else KEY_F4 + "+" + KEY_REP
-        return None
+        return KEY_REP if (env.f4_fixed and not env.rep_fixed) else KEY_F4
     W, D, bs = 1 << ap["wl"], ap["ds"], ap["bs"]
     lower = lower_bound(ap["mm"], False)
     wrap = has_wrap(c["seqs"])
@@ -809,8 +818,6 @@ def judge_q(env, c, rres, mout):
                 key = KEY_WRAP
             else:
                 key = finding_key("INVALID")
-                if key and "+" in key:      # explained only by both defects together: report under the repcode one
-                    key = KEY_REP
             env.report(case_replay(c, dict(applied=ap, rule=sv, decode=real[3])), key=key,
                        what="validateSequences=1 accepted a list with a structural violation (%s); decoding: %s" % (sv, real[3]))
         ctx.count(("oracle", "viol" if sv else "noviol", real[0]) + sig_extra)
@@ -1142,7 +1149,9 @@ def run_units(env, rng, n):
     mlines = []
     for l in lines:
         t = l.split(" ")
-        if t[2] in ("v", "f", "b"):
+        if t[2] == "v":
+            mlines.append(" ".join(t[:3] + ["1" if env.fixed else "0"] + t[3:]))
+        elif t[2] in ("f", "b"):
             mlines.append(l)
         elif t[2] == "k":
             mlines.append("G %s %d %s %s %s" % (t[1], 1 if env.gfix else 0, t[3], t[4], t[5]))
@@ -1318,8 +1327,8 @@ def run_producer(env, rng, n):
             nbs = str(nb) if nb < (1 << 62) else str((1 << 62) - 1)      # any value above the capacity is an error code
             if nb >= (1 << 62):
                 nbs = str(cap + 1)
-            mlines.append("P %s.%d %d %d %d 0 %d %d %d %d %d %s %d %d %d.%d.%d %s" % (
-                c["id"], k, ap["wl"], ap["mm"], ap["val"], ap["maxnb"], 1 if env.vfix else 0, 1 if env.vraw else 0, 1 if ap["ers"] == 1 else 0, c["fb"],
+            mlines.append("P %s.%d %d %d %d 0 %d %d %d %d %s %d %d %d.%d.%d %s" % (
+                c["id"], k, ap["wl"], ap["mm"], ap["val"], ap["maxnb"], 1 if env.fixed else 0, 1 if ap["ers"] == 1 else 0, c["fb"],
                 nbs, cap, srcsz, rep[0], rep[1], rep[2], seqs_str(buf)))
     mout = env.model(mlines)
     for c in cases:
@@ -1450,8 +1459,8 @@ def run(ctx):
     env = Env(ctx)
     rng = random.Random(ctx.seed)
     detect_rule(env)
-    ctx.notes["offset_rule_detected"] = ("position: " + ("at match start (repaired)" if env.vfix else "after the match (finding F4)")
-                                         + "; tested value: " + ("raw offset (repaired)" if env.vraw else "offBase after repcode substitution (repcode offsets untested)"))
+    ctx.notes["copier_variant_detected"] = ("repaired (size_t length test, raw offset tested at the match start)" if env.fixed else
+                                            "snapshot (F4 repaired: %s, repcode bypass repaired: %s, U32 wrap repaired: %s)" % (env.f4_fixed, env.rep_fixed, env.wrap_fixed))
     if ctx.replay_file:
         replay(env, ctx)
         ctx.proof_verdict(None)
@@ -1475,7 +1484,7 @@ def run(ctx):
     if not quick:
         # sanitizer variant: arbitrary arrays
         aenv = Env(ctx, variant="asan")
-        aenv.vfix, aenv.vraw = env.vfix, env.vraw
+        aenv.fixed, aenv.f4_fixed, aenv.rep_fixed, aenv.wrap_fixed = env.fixed, env.f4_fixed, env.rep_fixed, env.wrap_fixed
         aenv.reported = env.reported
         cor2 = derive_corruptions(rng, cases, 10, "z")
         run_q(aenv, cor2)
